@@ -1,5 +1,5 @@
 (** Command dispatcher of the executable model. *)
-From RP2V Require Import Base.Prelude Model.Entry.
+From RP2V Require Import Base.Prelude Model.Entry Model.EntryL1.
 From RP2V Require Import Model.EntryJp.
 Open Scope Z_scope.
 
@@ -17,4 +17,8 @@ Definition entry (cmd : Z) (args : list Z) : list Z :=
   if cmd =? 81 then entry_jp_repaired args else
   if cmd =? 82 then entry_jp_unrepaired args else
   if cmd =? 83 then entry_jp_flags args else
+  if cmd =? 41 then entry_parse_full args else
+  if cmd =? 42 then entry_config args else
+  if cmd =? 43 then entry_options args else
+  if cmd =? 45 then entry_num11 args else
   [-999].
